@@ -935,3 +935,19 @@ Definition ip_verdict (c : ip_case) : verdict :=
       | _, _, _ => ImplError
       end
   end.
+
+(* ---- C20: relative accuracy (tiny amplitudes of long lossy chains must be right in RELATIVE terms) ---- *)
+Definition crel (tol : bigQ) (e o : BQCf) : bool :=
+  let dr := BigQ.sub_norm (fst e) (fst o) in let di := BigQ.sub_norm (snd e) (snd o) in
+  let d2 := BigQ.add_norm (BigQ.mul_norm dr dr) (BigQ.mul_norm di di) in
+  let e2 := BigQ.add_norm (BigQ.mul_norm (fst e) (fst e)) (BigQ.mul_norm (snd e) (snd e)) in
+  match BigQ.compare e2 0%bigQ with
+  | Eq => cclose tol e o                                   (* expected exactly zero: absolute *)
+  | _ => qle d2 (BigQ.mul_norm (BigQ.mul_norm tol tol) e2)
+  end.
+
+Definition relval_verdict (c : val_case) : verdict :=
+  match vc_obs c with
+  | Raised => ImplError
+  | Obs o => if all2 (crel tol9) (vc_expected c) o then Agree else Differ
+  end.
